@@ -531,6 +531,56 @@ Proof.
     replace (zlen sm + zlen EOS - zlen EOS) with (zlen sm) by lia. now rewrite sub_head.
 Qed.
 
+(* ---- histories on one segment: the schema-message cache cannot leak between writes ------------ *)
+Lemma cached_prefix_so sm : cached_prefix (sm ++ EOS) = Some sm.
+Proof.
+  unfold cached_prefix. rewrite zlen_app, has_suffix_app. pose proof (zlen_nonneg sm).
+  destruct (Z.ltb_spec (zlen sm + zlen EOS) (zlen EOS)); [lia|]. cbn [negb orb].
+  replace (zlen sm + zlen EOS - zlen EOS) with (zlen sm) by lia. now rewrite sub_head.
+Qed.
+
+(* a cache key identifies the schema message *)
+Definition key_sound (ws : list wr) : Prop :=
+  forall w1 w2, In w1 ws -> In w2 ws -> w_key w1 = w_key w2 -> w_sm w1 = w_sm w2.
+Definition cache_inv (all : list wr) (c : cache) : Prop :=
+  forall k sm, cache_get k c = Some sm -> exists w0, In w0 all /\ w_key w0 = k /\ w_sm w0 = sm.
+
+Lemma write_step_fresh all c w :
+  key_sound all -> cache_inv all c -> In w all ->
+  snd (write_step c w) = fresh_store w /\ cache_inv all (fst (write_step c w)).
+Proof.
+  intros Hk Hi Hin. unfold write_step, fresh_store, stored_region.
+  destruct (w_alloc w); [|split; [reflexivity | exact Hi]].
+  destruct (writer_layout (w_schema w)); cbn [fst snd]; try (split; [reflexivity | exact Hi]).
+  destruct (cache_get (w_key w) c) as [sm|] eqn:E; cbn [fst snd].
+  - split; [|exact Hi]. destruct (Hi _ _ E) as (w0 & H0 & Hk0 & Hs0).
+    rewrite <- Hs0, (Hk w0 w H0 Hin Hk0). reflexivity.
+  - unfold wso. rewrite cached_prefix_so. cbn [fst snd]. split; [reflexivity|].
+    intros k sm. cbn [cache_get]. destruct (N.eqb_spec (w_key w) k) as [Ek|Ek].
+    + intro X; inversion X; subst. exists w. auto.
+    + apply Hi.
+Qed.
+
+Lemma run_writes_fresh_gen all : key_sound all ->
+  forall ws c, incl ws all -> cache_inv all c -> run_writes c ws = map fresh_store ws.
+Proof.
+  intros Hk ws. induction ws as [|w ws IH]; intros c Hinc Hi; [reflexivity|]. cbn [run_writes map].
+  destruct (write_step_fresh all c w Hk Hi) as [E1 E2]; [apply Hinc; now left|].
+  rewrite E1. f_equal. apply IH; [intros x Hx; apply Hinc; now right | exact E2].
+Qed.
+
+Lemma run_writes_fresh ws : key_sound ws -> run_writes [] ws = map fresh_store ws.
+Proof.
+  intro Hk. apply (run_writes_fresh_gen ws Hk); [apply incl_refl|]. intros k sm X. discriminate.
+Qed.
+
+Lemma key_sound_b_sound ws : key_sound_b ws = true -> key_sound ws.
+Proof.
+  unfold key_sound_b, key_sound. intros H w1 w2 H1 H2 Ek.
+  rewrite forallb_forall in H. specialize (H w1 H1). rewrite forallb_forall in H. specialize (H w2 H2).
+  rewrite Ek, N.eqb_refl in H. cbn [negb orb] in H. now apply beqb_eq.
+Qed.
+
 (* ---- end to end, Arrow IPC as an oracle ---------------------------------------------------- *)
 Section IPC.
   Variables (batch schema : Type).
@@ -557,6 +607,27 @@ Section IPC.
     - destruct (strip_reconstruct (enc_schema (schema_of b)) (enc_body b)) as [Hs Hr]; [apply schema_msg_delimited|].
       exists (enc_body b). unfold ipc_full, ipc_schema_only. rewrite Hs, Hr. split; [reflexivity | apply dec_enc].
     - exists (ipc_full b). split; [now destruct (negb false && _)|]. apply dec_enc.
+  Qed.
+
+  (* histories: every write of a history on one segment reads back as its own batch *)
+  Variable key : batch -> N.
+  Variable region : batch -> Z * Z.
+  Variable md_of : batch -> meta.
+  Definition w_of (b : batch) : wr :=
+    {| w_key := key b; w_schema := shape (schema_of b); w_sm := enc_schema (schema_of b);
+       w_body := enc_body b; w_md := md_of b; w_alloc := Some (region b) |}.
+
+  Lemma history_roundtrip bs :
+    (forall b1 b2, In b1 bs -> In b2 bs -> key b1 = key b2 ->
+                   enc_schema (schema_of b1) = enc_schema (schema_of b2)) ->
+    Forall2 (fun b res => exists st, res = WBytes st /\ shm_read (schema_of b) st = Some b)
+            bs (run_writes [] (map w_of bs)).
+  Proof.
+    intro Hk. rewrite run_writes_fresh.
+    - rewrite map_map. clear Hk. induction bs as [|b bs IH]; cbn [map]; constructor; [|exact IH].
+      destruct (shm_roundtrip b) as (st & Hw & Hr). exists st. split; [|exact Hr]. exact Hw.
+    - intros w1 w2 H1 H2 Ek. apply in_map_iff in H1 as (b1 & <- & I1). apply in_map_iff in H2 as (b2 & <- & I2).
+      cbn [w_of w_key w_sm] in *. now apply Hk.
   Qed.
 End IPC.
 
@@ -590,9 +661,38 @@ Proof.
       destruct He as [-> | [-> | [-> | [-> | ->]]]]; reflexivity.
 Qed.
 
+Lemma spec_w_fresh size name w :
+  size_ok size = true -> spec_w size name w (wobs_of size name w (fresh_store w)) = true.
+Proof.
+  intro Hs. assert (Hs' : 0 <= size < TWO63) by (unfold size_ok in Hs; lia).
+  unfold wobs_of, fresh_store, spec_w. destruct (w_alloc w) as [[off len]|] eqn:Ea; [|reflexivity].
+  destruct (stored_region (w_schema w) (wfull w)) as [| |st] eqn:Est.
+  1,2: (match goal with |- (if ?c then true else _) = true => destruct c; [reflexivity|] end;
+        unfold framing_ok; rewrite Est; reflexivity).
+  match goal with |- (if ?c then true else _) = true => destruct c eqn:Hrange; [reflexivity|] end.
+  match goal with |- (if ?c then true else _) = true => destruct c eqn:Hfr; [reflexivity|] end.
+  destruct (has_key c35_k_loglevel (w_md w)) eqn:Hlog; [reflexivity|].
+  pose proof header_pos as Hh. pose proof (zlen_nonneg st) as Hst.
+  assert (Hr : c35_header_size <= off /\ off + len <= size /\ len = zlen st) by lia. destruct Hr as (H1 & H2 & ->).
+  unfold framing_ok in Hfr. rewrite Est in Hfr.
+  destruct (reader_input (w_schema w) (wso w) st) as [ri|] eqn:Eri; [|discriminate].
+  assert (Hri : beqb ri (wfull w) = true) by (destruct (beqb ri (wfull w)); [reflexivity | discriminate]).
+  rewrite (written_pointer_resolves size name (w_md w) off (zlen st)) by (try assumption; lia).
+  rewrite Hri, !Z.eqb_refl. cbn [andb].
+  assert (M2 : md_eqb (resolved_md (w_md w) name) (resolved_md (w_md w) name) = true) by now apply md_eqb_eq.
+  now rewrite M2.
+Qed.
+
+Lemma spec_ws_fresh size name ws :
+  size_ok size = true -> spec_ws size name ws (zip_wobs size name ws (map fresh_store ws)) = true.
+Proof.
+  intro Hs. induction ws as [|w ws IH]; [reflexivity|]. cbn [map zip_wobs spec_ws].
+  now rewrite spec_w_fresh, IH.
+Qed.
+
 Lemma model_meets_spec i : spec_ok i (model i) = true.
 Proof.
-  destruct i as [c|c|b]; cbn [model spec_ok].
+  destruct i as [c|c|b|c]; cbn [model spec_ok].
   - destruct (size_ok (p_size c)) eqn:Hs; cbn [negb orb]; [|reflexivity].
     unfold run_ptr. now apply spec_ptr_model.
   - unfold run_rt. destruct (size_ok (r_size c)) eqn:Hs.
@@ -625,6 +725,9 @@ Proof.
     assert (M2 : md_eqb (resolved_md (r_md c) (r_name c)) (resolved_md (r_md c) (r_name c)) = true) by now apply md_eqb_eq.
     now rewrite M1, M2.
   - reflexivity.
+  - unfold run_hist. destruct (size_ok (h_size c)) eqn:Hs; cbn [negb orb]; [|reflexivity].
+    destruct (key_sound_b (h_writes c)) eqn:Hk; cbn [negb orb]; [|reflexivity].
+    rewrite run_writes_fresh by now apply key_sound_b_sound. now apply spec_ws_fresh.
 Qed.
 
 (* ---- readable forms used by Props -------------------------------------------------------------- *)
@@ -684,3 +787,40 @@ Proof.
     apply sub_mid.
   - intros _ tail. apply demo_msg_delimited.
 Qed.
+
+(* ---- histories, readable forms ------------------------------------------------------------------- *)
+Lemma history_roundtrip_plain :
+  forall (batch schema : Type) (schema_of : batch -> schema) (shape : schema -> list ty)
+         (enc_schema : schema -> bytes) (enc_body : batch -> bytes) (dec : bytes -> option batch)
+         (key : batch -> N) (region : batch -> Z * Z) (md_of : batch -> meta),
+    (forall b, dec (enc_schema (schema_of b) ++ enc_body b ++ EOS) = Some b) ->
+    (forall s tail, skip_msg (enc_schema s ++ tail) = Some (zlen (enc_schema s))) ->
+    forall bs,
+      (forall b1 b2, In b1 bs -> In b2 bs -> key b1 = key b2 ->
+                     enc_schema (schema_of b1) = enc_schema (schema_of b2)) ->
+      let wr_of := fun b => {| w_key := key b; w_schema := shape (schema_of b); w_sm := enc_schema (schema_of b);
+                               w_body := enc_body b; w_md := md_of b; w_alloc := Some (region b) |} in
+      Forall2 (fun b res => exists st, res = WBytes st /\
+                 exists ri, reader_input (shape (schema_of b)) (enc_schema (schema_of b) ++ EOS) st = Some ri
+                            /\ dec ri = Some b)
+              bs (run_writes [] (map wr_of bs)).
+Proof.
+  intros batch schema schema_of shape enc_schema enc_body dec key region md_of H1 H2 bs Hk wr_of.
+  pose proof (history_roundtrip batch schema schema_of shape enc_schema enc_body dec H1 H2 key region md_of bs Hk) as H.
+  change (w_of batch schema schema_of shape enc_schema enc_body key region md_of) with wr_of in H.
+  clear Hk. revert H. generalize (run_writes [] (map wr_of bs)). intros rs H.
+  induction H as [|b r bs' rs' (st & -> & Hr) _ IH]; constructor; [|exact IH].
+  exists st. split; [reflexivity|]. unfold shm_read, ipc_schema_only in Hr.
+  destruct (reader_input (shape (schema_of b)) (enc_schema (schema_of b) ++ EOS) st) as [ri|]; [|discriminate].
+  now exists ri.
+Qed.
+
+(* two writes that share a cache key but not a schema: the second is stored under the first's schema *)
+Definition lossy_pair : list wr :=
+  [ {| w_key := 7; w_schema := [TInt]; w_sm := [1]%N; w_body := [9]%N; w_md := []; w_alloc := Some (65536, 10) |};
+    {| w_key := 7; w_schema := [TInt]; w_sm := [2]%N; w_body := [9]%N; w_md := []; w_alloc := Some (65546, 10) |} ].
+Lemma lossy_key_breaks :
+  key_sound_b lossy_pair = false /\ run_writes [] lossy_pair <> map fresh_store lossy_pair
+  /\ spec_ok (IHist {| h_size := 131072; h_name := []; h_writes := lossy_pair |})
+             (model (IHist {| h_size := 131072; h_name := []; h_writes := lossy_pair |})) = true.
+Proof. vm_compute. repeat split; congruence. Qed.
